@@ -24,7 +24,8 @@ def id_name_map(o: H, h: H, D, L, done=None):
     inl = (lambda q: z3.Select(done, VRef(q)) > 0) if done is not None else (lambda q: o.cnt(L, q) > 0)
     return z3.And(
         FA([c], z3.Implies(inl(c), h.has(D, o.f('id', c))), [o.cnt(L, c)] if done is None else [z3.Select(done, VRef(c))]),
-        FA([k], z3.Implies(h.has(D, k), z3.Exists([c], z3.And(inl(c), o.f('id', c) == k, h.val(D, k) == VStr(full_name(o, c))))), [h.has(D, k)]))
+        FA([k], z3.Implies(h.has(D, k), z3.Exists([c], z3.And(inl(c), o.f('id', c) == k, h.val(D, k) == VStr(full_name(o, c))),
+                                                  patterns=[o.cnt(L, c)] if done is None else [z3.Select(done, VRef(c))])), [h.has(D, k)]))
 
 
 def install(reg: Registry):
@@ -169,7 +170,7 @@ def install_attacker_and_graph(reg: Registry):
     def g_requires(c):
         return [('wf.' + nm, f) for nm, f in wf_graph(c.old, c.self, parts=('W0', 'W1', 'W2', 'W4'))]
 
-    def entries(o, h, D, L, keyof, enc, done=None):
+    def entries(o, h, D, L, keyof, enc, done=None, above=None, nested=()):
         """dict D has exactly one entry per (processed) element x of list L, under key keyof(x), and that entry encodes x"""
         x = A('x!en')
         k = z3.Const('k!en', Val)
@@ -177,7 +178,11 @@ def install_attacker_and_graph(reg: Registry):
         pat = [z3.Select(done, VRef(x))] if done is not None else [o.cnt(L, x)]
         return z3.And(
             FA([x], z3.Implies(inl(x), z3.And(h.has(D, keyof(x)), is_VRef(h.val(D, keyof(x))), v_a(h.val(D, keyof(x))) >= o.alloc,
-                                              *[f for _, f in enc(o, h, v_a(h.val(D, keyof(x))), x)])), pat),
+                                              *([f for _, f in enc(o, h, v_a(h.val(D, keyof(x))), x)] +
+                                                # the entry and its nested dicts were allocated after the two result dicts: later
+                                                # stores into those cannot touch them
+                                                ([v_a(h.val(D, keyof(x))) > above] + [v_a(h.val(v_a(h.val(D, keyof(x))), K(sub))) > above for sub in nested]
+                                                 if above is not None else [])))), pat),
             FA([k], z3.Implies(h.has(D, k), z3.Exists([x], z3.And(inl(x), o.cnt(L, x) > 0, keyof(x) == k))), [h.has(D, k)]))
 
     name_key = lambda o: (lambda x: VStr(full_name_fn(o)[0](x)))
@@ -188,14 +193,15 @@ def install_attacker_and_graph(reg: Registry):
             o, h, G = c.old, c.h, c.self
             SA, ST = c.local('serialized_attack_steps').t, c.local('serialized_attackers').t
             out = old_same(o, h) + [
-                ('dicts-fresh', z3.And(SA >= o.alloc, ST >= o.alloc, SA < h.alloc, ST < h.alloc, SA != ST, h.cls(SA) == CLS_DICT, h.cls(ST) == CLS_DICT)),
+                ('dicts-fresh', z3.And(SA >= o.alloc, ST > SA, SA < h.alloc, ST < h.alloc, SA != ST, h.cls(SA) == CLS_DICT, h.cls(ST) == CLS_DICT)),
             ]
             if which == 0:
-                out += [('steps-so-far', entries(o, h, SA, nodes_l(o, G), name_key(o), reg.node_enc, done=c.done)),
+                out += [('steps-so-far', entries(o, h, SA, nodes_l(o, G), name_key(o), reg.node_enc, done=c.done, above=ST, nested=('children', 'parents'))),
                         ('attackers-none', z3.Select(h.arr['D_has'], ST) == EMPTY_HAS)]
             else:
-                out += [('steps', entries(o, h, SA, nodes_l(o, G), name_key(o), reg.node_enc)),
-                        ('attackers-so-far', entries(o, h, ST, atts_l(o, G), id_key(o), att_enc, done=c.done))]
+                out += [('steps', entries(o, h, SA, nodes_l(o, G), name_key(o), reg.node_enc, above=ST, nested=('children', 'parents'))),
+                        ('attackers-so-far', entries(o, h, ST, atts_l(o, G), id_key(o), att_enc, done=c.done, above=ST,
+                                                     nested=('entry_points', 'reached_attack_steps')))]
             return out
         return inv
 
